@@ -17,6 +17,11 @@ package basichost
 //                               followed by further reads (and writes from the still-open end).
 //  TestVerifC02StreamListenerFirst the listener speaks first: the dialer's first operation on a fresh stream is a
 //                               Read (which has to run the lazy handshake), the answer flows dialer->listener.
+//                               Every script also runs over a muxed stream that returns its LAST BYTES TOGETHER WITH
+//                               io.EOF (as QUIC streams do; yamux never does): c02JoinStream in the fixture.
+//  TestVerifC02StreamReadFaults a stream breaks (reset) or ends while bytes are in flight, the error arriving in the
+//                               same Read call as the last segment - at the muxed-stream level (under swarm.Stream)
+//                               and at the level of the raw connection under yamux / Noise.
 //  TestVerifC02StreamConcurrent 3 bidirectional streams with concurrently running writers and readers (the Go
 //                               scheduler picks the interleaving inside the bubble; the oracle does not
 //                               depend on it).
@@ -52,6 +57,10 @@ type c02Case struct {
 	Dirs     string `json:"directions,omitempty"`
 	Script   string `json:"script,omitempty"`
 	Step     string `json:"failed_at,omitempty"`
+	// the muxed stream under swarm.Stream returns its last bytes together with io.EOF once the peer's CloseWrite arrived
+	EOFWithData bool               `json:"muxed_stream_returns_last_bytes_together_with_eof,omitempty"`
+	Level       string             `json:"fault_level,omitempty"`
+	Fault       *memconn.ReadFault `json:"read_fault,omitempty"`
 }
 
 var c02Stacks = []string{"yamux", "yamux/noise"}
@@ -456,6 +465,7 @@ func TestVerifC02StreamHalfClose(t *testing.T) {
 		pn = append(pn, p.Name)
 	}
 	r.Bounds["read_policies"] = pn
+	r.Bounds["end_of_stream"] = "the muxed stream under swarm.Stream returns the last bytes before io.EOF (yamux) | together with io.EOF, once the peer's CloseWrite has arrived (QUIC-like; adaptor over the yamux stream)"
 	for _, stack := range c02Stacks {
 		for _, neg := range c02Negs {
 			for si, script := range c02HalfCloseScripts {
@@ -468,20 +478,26 @@ func TestVerifC02StreamHalfClose(t *testing.T) {
 							continue
 						}
 						for _, pol := range pols {
-							if b.Over() {
-								return
-							}
-							c := c02Case{Scenario: "half-close", Stack: stack, Neg: neg, Short: short, Script: script, Chunks: []int{sz[0], sz[1]}, Policy: pol.Name}
-							var prob *memconn.Problem
-							var infra error
-							var ends string
-							pan := memconn.Bubble(t, func() {
-								prob, infra, ends = c02HalfClose(sec, &c, script, sz, pol, &b.Buf)
-							})
-							if c02File(b, pan, infra, prob, c) {
-								b.Transfers += 2
-								r.Outcome("half-close script " + fmt.Sprint(si) + ": all bytes delivered; reads after the end: " + ends)
-								b.Distinct(c, stack, neg, si, sz, short, pol.Name)
+							for _, join := range []bool{false, true} {
+								if b.Over() {
+									return
+								}
+								c := c02Case{Scenario: "half-close", Stack: stack, Neg: neg, Short: short, Script: script, Chunks: []int{sz[0], sz[1]}, Policy: pol.Name, EOFWithData: join}
+								var prob *memconn.Problem
+								var infra error
+								var ends string
+								pan := memconn.Bubble(t, func() {
+									prob, infra, ends = c02HalfClose(sec, &c, script, sz, pol, &b.Buf)
+								})
+								if c02File(b, pan, infra, prob, c) {
+									b.Transfers += 2
+									how := ""
+									if join {
+										how = " (muxed stream returns its last bytes together with io.EOF)"
+									}
+									r.Outcome("half-close script " + fmt.Sprint(si) + how + ": all bytes delivered; reads after the end: " + ends)
+									b.Distinct(c, stack, neg, si, sz, short, pol.Name, join)
+								}
 							}
 						}
 					}
@@ -492,7 +508,7 @@ func TestVerifC02StreamHalfClose(t *testing.T) {
 }
 
 func c02HalfClose(sec *c02Sec, c *c02Case, script string, sz [2]int, pol memconn.Policy, buf *[]byte) (*memconn.Problem, error, string) {
-	m, err := c02NewMux(sec, c.Stack, c.Short)
+	m, err := c02NewMuxOpt(sec, c.Stack, c.Short, c.EOFWithData)
 	if err != nil {
 		return nil, err, ""
 	}
@@ -574,6 +590,28 @@ func c02HalfClose(sec *c02Sec, c *c02Case, script string, sz [2]int, pol memconn
 			return prob, nil, ""
 		}
 		synctest.Wait()
+		// the CloseWrite has arrived at the other end: the last Write may now be read together with the end
+		switch st[:2] {
+		case "cc":
+			c2s.WriterClosed = true
+			if j := m.join(p.k, true); j != nil {
+				j.arm()
+			}
+		case "sc":
+			s2c.WriterClosed = true
+			if j := m.join(p.k, false); j != nil {
+				j.arm()
+			}
+		}
+	}
+	if c.EOFWithData {
+		joined := 0
+		for _, server := range []bool{false, true} {
+			if j := m.join(p.k, server); j != nil {
+				joined += j.joined
+			}
+		}
+		ends = append(ends, fmt.Sprintf("reads that returned bytes together with io.EOF: %v", joined > 0))
 	}
 	*buf = c2s.Buf
 	c.Step = ""
@@ -768,4 +806,235 @@ func TestVerifC02StreamListenerFirst(t *testing.T) {
 			}
 		}
 	}
+}
+
+// ---------- read faults: the stream / the connection ends or breaks while bytes are in flight ----------
+
+// TestVerifC02StreamReadFaults. One fresh connection and stream per run; a checked 1-byte request establishes the
+// stream on both sides; then the writer of the chosen direction writes L bytes and bubble quiescence makes sure
+// they all sit in the reader's muxer; then
+//
+//	level "muxed stream" (adaptor c02JoinStream between the yamux stream and swarm.Stream):
+//	  eof      the writer calls CloseWrite; the muxed stream hands out its last bytes with / before io.EOF
+//	                                                                             -> all L bytes must arrive
+//	  reset    the muxed stream breaks (network.ErrReset) after Pos of the L bytes, the error with / after the
+//	           segment that ends there;  timeout: the same with an expired deadline, error with the segment
+//	level "connection" (the raw connection under yamux, or under Noise under yamux; dialer->listener only):
+//	  reset / conn-eof / timeout after Pos of the W wire bytes of the L-byte write, the error with the segment
+//	  that ends there (reset also after it): the yamux session dies with stream data in flight
+//
+// and the reader reads on for 6 Reads after its first error. Oracle (memconn.FaultResult.Judge): every byte ever
+// returned - by the Read that reports the error too - is the byte written at that position of THIS stream, and
+// never more than was written; eof: everything arrived.
+func TestVerifC02StreamReadFaults(t *testing.T) {
+	r := vrep.New("C02", "stream-readfaults")
+	defer r.Flush()
+	sec, err := c02NewSec()
+	if err != nil {
+		r.Cap("infrastructure: %v", err)
+		return
+	}
+	b := memconn.NewBook(r)
+	defer b.Finish()
+	thorough := vrep.Thorough()
+	lengths := []int{1, 4097, 70000}
+	shorts := [][]int{{0}, {7}}
+	pols := []memconn.Policy{memconn.Fixed(1), memconn.Fixed(4096), memconn.Rel(0), memconn.Fixed(4096).WithZeros(1)}
+	if thorough {
+		lengths = append(lengths, 4096, 200000)
+		pols = append(pols, memconn.Fixed(65536), memconn.Rel(-1), memconn.Rel(0).WithZeros(0, 1))
+	}
+	r.Bounds["L"] = lengths
+	r.Bounds["write_splits"] = "whole, thirds"
+	var pn []string
+	for _, p := range pols {
+		pn = append(pn, p.Name)
+	}
+	r.Bounds["read_policies(r=1 only for L <= 4097)"] = pn
+	r.Bounds["short_read_patterns"] = shorts
+	r.Bounds["negotiation"] = c02Negs
+	r.Bounds["stacks"] = c02Stacks
+	r.Bounds["muxed_stream_level"] = "both directions; eof {last bytes with | before io.EOF}; at Pos in {1,2,3,L/2,L-2,L-1,L}: reset with the segment, reset after the segment (control), expired deadline with the segment"
+	r.Bounds["connection_level"] = "dialer->listener; at Pos in {1,2,3,W/2,W-2,W-1,W,11,12,13,14} of the W wire bytes of the write (probe run): reset with the segment, reset after the segment, conn-eof with the segment, expired deadline with the segment"
+	r.Bounds["reads_after_first_error"] = 6
+	if !thorough {
+		r.Bounds["quick_reduction"] = "muxed-stream level only over plain yamux with unlimited reads underneath (the adaptor sits above the muxer)"
+	}
+	for _, stack := range c02Stacks {
+		for _, neg := range c02Negs {
+			for _, L := range lengths {
+				payload := memconn.Pattern(0x57FA17+uint64(L), L)
+				for _, sp := range memconn.Splits(L, nil, 0) {
+					if sp.Name != "whole" && sp.Name != "thirds" {
+						continue
+					}
+					for _, short := range shorts {
+						if !thorough && stack == "yamux/noise" && short[0] != 0 {
+							continue
+						}
+						// ---- muxed-stream level ----
+						for _, dir := range []string{"dialer->listener", "listener->dialer"} {
+							if !thorough && (stack != "yamux" || short[0] != 0) {
+								break // quick: the adaptor sits above the muxer: what is underneath yamux does not matter to it
+							}
+							for fi, f := range memconn.Faults(L, nil) {
+								if !b.Mine(stack, neg, L, sp.Name, short, dir, fi) {
+									continue
+								}
+								for _, pol := range pols {
+									if pol.D == 1 && !pol.Rel && L > 4097 {
+										continue
+									}
+									if b.Over() {
+										return
+									}
+									f := f
+									c := c02Case{Scenario: "read-fault", Level: "muxed stream", Stack: stack, Neg: neg, Short: short, L: L, Split: sp.Name, Writes: c02ShortWrites(sp.Sizes), Policy: pol.Name, Dirs: dir, Fault: &f, EOFWithData: f.Kind == "eof" && f.WithData}
+									var res memconn.FaultResult
+									var infra error
+									pan := memconn.Bubble(t, func() { res, infra = c02StreamFault(sec, &c, payload, sp.Sizes, pol, f, 0, &b.Buf) })
+									c02FileFault(b, pan, infra, res, f, L, c, stack, neg, L, sp.Name, short, dir, fi, pol.Name)
+								}
+							}
+						}
+						// ---- connection level ----
+						if L < 2 || sp.Name != "whole" {
+							continue
+						}
+						c := c02Case{Scenario: "read-fault", Level: "connection", Stack: stack, Neg: neg, Short: short, L: L, Split: sp.Name, Dirs: "dialer->listener"}
+						var probe memconn.FaultResult
+						var infra error
+						pan := memconn.Bubble(t, func() {
+							probe, infra = c02StreamFault(sec, &c, payload, sp.Sizes, pols[1], memconn.ReadFault{}, -1, &b.Buf)
+						})
+						if pan != "" || infra != nil || probe.W < L {
+							r.Cap("infrastructure: connection-level probe of %s/%s L=%d: W=%d %v %s", stack, neg, L, probe.W, infra, pan)
+							continue
+						}
+						var faults []memconn.ReadFault
+						for _, pos := range memconn.FaultPositions(probe.W, []int{11, 12, 13, 14}) {
+							faults = append(faults,
+								memconn.ReadFault{Kind: "reset", WithData: true, Pos: pos, W: probe.W},
+								memconn.ReadFault{Kind: "reset", Pos: pos, W: probe.W},
+								memconn.ReadFault{Kind: "conn-eof", WithData: true, Pos: pos, W: probe.W},
+								memconn.ReadFault{Kind: "timeout", WithData: true, Pos: pos, W: probe.W})
+						}
+						for fi, f := range faults {
+							if !b.Mine(stack, neg, L, "conn", short, fi) {
+								continue
+							}
+							for pi, pol := range pols {
+								if pi == 0 || pi == 3 {
+									continue // the connection level uses r=4096 and r=remaining
+								}
+								if b.Over() {
+									return
+								}
+								f := f
+								c.Policy, c.Fault = pol.Name, &f
+								var res memconn.FaultResult
+								pan := memconn.Bubble(t, func() { res, infra = c02StreamFault(sec, &c, payload, sp.Sizes, pol, f, 1, &b.Buf) })
+								c02FileFault(b, pan, infra, res, f, L, c, stack, neg, L, "conn", short, fi, pol.Name)
+							}
+						}
+					}
+				}
+			}
+		}
+	}
+}
+
+func c02FileFault(b *memconn.Book, pan string, infra error, res memconn.FaultResult, f memconn.ReadFault, L int, c c02Case, key ...any) {
+	switch {
+	case pan != "" && strings.Contains(pan, "blocked goroutines remain") && res.Problem == nil && infra == nil:
+		b.N++
+		b.R.Outcome("goroutines left after teardown (not judged)")
+		return
+	case infra != nil && pan == "":
+		b.N++
+		b.Transfers++
+		b.R.Violate("stream:baseline-setup-failed", infra.Error(), c)
+		b.R.Outcome("VIOLATION baseline-setup-failed")
+		return
+	}
+	res.Panic = pan
+	if cls := b.ReadFault("stream/"+c.Level, res, f, L, c); cls != "" {
+		b.Distinct(c, key...)
+	}
+}
+
+// c02StreamFault runs one read-fault case. level 0: muxed-stream level; level 1: connection level; level -1:
+// connection-level probe (returns W = wire bytes the listener's raw end received for the write).
+func c02StreamFault(sec *c02Sec, c *c02Case, payload []byte, writes []int, pol memconn.Policy, f memconn.ReadFault, level int, buf *[]byte) (res memconn.FaultResult, infra error) {
+	m, err := c02NewMuxOpt(sec, c.Stack, c.Short, level == 0)
+	if err != nil {
+		return res, err
+	}
+	defer m.close()
+	p, err := m.open(0, c.Neg)
+	if err != nil {
+		return res, err
+	}
+	// a checked 1-byte request establishes the stream on both sides (handshake done, handler dispatched)
+	if res.Problem = p.transfer(true, []byte{0x5A}, []int{1}, false, memconn.Fixed(8), nil).Run(); res.Problem != nil {
+		return res, nil
+	}
+	toServer := c.Dirs != "listener->dialer"
+	tr := p.transfer(toServer, payload, writes, false, pol, *buf)
+	defer func() { *buf = tr.Buf }()
+	if level != 0 {
+		base := m.cb.Stats().BytesRead
+		if level == 1 {
+			m.cb.FailReadAfter(int64(f.Pos), f.Err(), f.WithData)
+		}
+		// the connection may die while the dialer is still writing: its Write results are not judged here
+		w := c02End{p, false}
+		off := 0
+		for _, n := range writes {
+			k, err := w.Write(append([]byte(nil), payload[off:off+n]...))
+			off += k
+			if err != nil {
+				break
+			}
+		}
+		tr.Accepted = len(payload) // everything the writer ever tried to send on this stream
+		synctest.Wait()
+		res.W = int(m.cb.Stats().BytesRead - base)
+		if level < 0 {
+			return res, nil
+		}
+		res.Obs, res.Problem = tr.ReadTampered(6)
+		return res, nil
+	}
+	if res.Problem = tr.WriteAll(); res.Problem != nil {
+		return res, nil
+	}
+	synctest.Wait()
+	j := m.join(p.k, toServer)
+	if j == nil {
+		return res, fmt.Errorf("harness: no adaptor under the reading end")
+	}
+	if f.Kind == "eof" {
+		ws, err := c02End{p, !toServer}.stream()
+		if err != nil {
+			return res, err
+		}
+		if err := ws.CloseWrite(); err != nil {
+			res.Problem = &memconn.Problem{Key: "closewrite-failed-on-healthy-stream", Desc: err.Error()}
+			return res, nil
+		}
+		synctest.Wait()
+		tr.WriterClosed = true
+		if f.WithData {
+			j.arm()
+		}
+	} else {
+		e := f.Err()
+		if f.Kind == "reset" {
+			e = network.ErrReset
+		}
+		j.failAfter(int64(f.Pos), e, f.WithData)
+	}
+	res.Obs, res.Problem = tr.ReadTampered(6)
+	return res, nil
 }
